@@ -207,9 +207,21 @@ HOST_IS_TRUSTED = Spec(
 )
 
 
+GET_HOST = Spec(
+    module="sansio/utils.py",
+    qualname="get_host",
+    name="get_host",
+    opaque=[("idna", "Pre.Str → Except String Pre.Str")],
+    params=[("scheme", "Str"), ("host_header", "Option Str"), ("server", "Option (Str × Option Int)"), ("trusted_hosts", "Option (List Str)")],
+    result="Str",
+    raises=True,  # SecurityError; host[0] raises IndexError on "": proved impossible
+    calls={"host_is_trusted": Fn("host_is_trusted", [Opt(STR), py2lean.Lst(STR)], BOOL, extra=("idna",))},
+)
+
+
 @generator("PyFns_Host")
 def gen_host():
-    return emit("Host", [STRIP_PORT, HOST_IS_TRUSTED])
+    return emit("Host", [STRIP_PORT, HOST_IS_TRUSTED, GET_HOST])
 
 
 # --------------------------------------------------------------------------
